@@ -1382,6 +1382,14 @@ class Engine:
                                 s1.status = 'return'
                             out.append(s1)
                         continue
+                    if func.d.get('ret', '').endswith('&') and strip_casts(kids[0]).get('k') in CALL_KINDS:
+                        # a reference handed through from a callee that returns a reference to an element
+                        for v, s1 in self.call(strip_casts(kids[0]), s, func):
+                            if s1.status == 'normal':
+                                s1.status = 'return'
+                                s1.ret = v
+                            out.append(s1)
+                        continue
                     for v, s1 in self.ev(kids[0], s, func):
                         if s1.status == 'normal':
                             s1.status = 'return'
@@ -2103,6 +2111,8 @@ def m_string_method(eng, n, st, func, want):
             elif len(vals) == 2 and isinstance(vals[0], Lin):
                 s1.fields[(name, 'length')] = vals[0]
                 content = ('fill', Ptr(name + '.data', 0), vals[1], vals[0])
+            elif not vals:
+                s1.fields[(name, 'length')] = lin(0)
             else:
                 s1.fields[(name, 'length')] = eng.fresh('len', s1, 'unsigned long')
             if content is not None:
